@@ -48,15 +48,15 @@ struct Step {
     client: Uuid,
 }
 
-fn gen_requests(rng: &mut Rng, n: usize, big: bool) -> Vec<(usize, u8, usize)> {
+fn gen_requests(rng: &mut Rng, n: usize, big: bool, huge: bool) -> Vec<(usize, u8, usize)> {
     // (client, kind, payload size): kind 0 add(valid) 1 add(stale) 2 snapshot(latest) 3 snapshot(stale/decline) 4 get-child 5 get-snapshot
     let sizes_small = [10usize, 200, 3900, 4000, 4100, 4200];
-    let sizes_big = [70_000usize, 300_000, 1_500_000];
+    let sizes_big: &[usize] = if huge { &[70_000, 300_000, 1_500_000] } else { &[70_000, 300_000] };
     let mut v = vec![];
     for i in 0..n {
         let c = rng.usize(4);
         let kind = if i < 3 { 0 } else { rng.weighted(&[50, 8, 18, 6, 10, 8]) as u8 };
-        let size = if big && rng.pct(35) { *rng.pick(&sizes_big) } else { *rng.pick(&sizes_small) };
+        let size = if big && rng.pct(35) { *rng.pick(sizes_big) } else { *rng.pick(&sizes_small) };
         v.push((c, kind, size));
     }
     v
@@ -70,7 +70,7 @@ pub fn shard_run(tier: &str, seed: u64, replay_case: Option<usize>, shard: Shard
         out.errors.push(e);
         return out;
     }
-    let n_hist = if thorough { 160 } else { 12 };
+    let n_hist = if thorough { 160 } else { 24 };
     for hi in 0..n_hist {
         match replay_case {
             Some(c) => {
@@ -87,9 +87,9 @@ pub fn shard_run(tier: &str, seed: u64, replay_case: Option<usize>, shard: Shard
         let mut rng = Rng::new(seed).fork(0xC04 + hi as u64);
         let bystander = hi % 3 == 1;
         let http = hi % 4 == 2;
-        let big = thorough && hi % 5 == 0 || (!thorough && hi == 1);
+        let big = hi % 5 == 1;
         let nreq = if big { 6 + rng.usize(4) } else { 6 + rng.usize(10) };
-        let plan = gen_requests(&mut rng, nreq, big);
+        let plan = gen_requests(&mut rng, nreq, big, thorough);
         let clients = [rng.uuid(), rng.uuid(), rng.uuid(), rng.uuid()];
         // ---- record
         vfs::start_recording();
@@ -294,8 +294,138 @@ pub fn shard_run(tier: &str, seed: u64, replay_case: Option<usize>, shard: Shard
             cov.samples.push(json!({"history": descr, "vfs_events": events.len(), "crash_points": n_points_total}));
         }
     }
+    // ---- end-to-end cross-check: the real executable under a write workload, killed with kill -9
+    // at random instants; after restart every acknowledged request must be present
+    if replay_case.is_none() {
+        let cycles = if thorough { 200 } else { 12 };
+        if let Some(f) = kill_loop(seed, cycles, shard, &mut cov, &mut out.errors) {
+            out.found.push(f);
+        }
+    }
     out.cov = cov;
     out
+}
+
+fn kill_loop(seed: u64, cycles: usize, shard: Shard, cov: &mut Cov, errors: &mut Vec<String>) -> Option<Found> {
+    use crate::http::{socket_request, Framing};
+    use crate::net::{free_port, server_bin, Proc};
+    use std::sync::atomic::{AtomicBool, Ordering};
+    use std::sync::{Arc, Mutex};
+    use std::time::Duration;
+    let Some(bin) = server_bin() else {
+        errors.push("server binary not built".into());
+        return None;
+    };
+    // a few workers run all the cycles (each cycle verifies what the previous ones of the same
+    // worker acknowledged)
+    let kw = shard.n.min(if cycles > 50 { 6 } else { 3 });
+    let mine: Vec<usize> = (0..cycles).filter(|i| shard.k < kw && i % kw == shard.k).collect();
+    if mine.is_empty() {
+        return None;
+    }
+    // one data directory per worker (kill -9 leaves whatever the page cache holds, so tmpfs is as good as a disk)
+    let dir = ScratchDir::new("c04kill");
+    let client = Rng::new(seed).fork(0x4B11 + shard.k as u64).uuid();
+    let mut acked: Vec<(Uuid, Uuid, Vec<u8>)> = vec![];
+    let mut snap: Option<(Uuid, Vec<u8>)> = None;
+    let mut rng = Rng::new(seed).fork(0x4B12 + shard.k as u64);
+    for cyc in mine {
+        let port = free_port()?;
+        let addr = format!("127.0.0.1:{port}");
+        let mut proc = match Proc::start(&bin, &["--listen".into(), addr.clone(), "--data-dir".into(), dir.path().to_string_lossy().to_string()], &[], &[addr.clone()], Duration::from_secs(20)) {
+            Ok(p) => p,
+            Err(e) => {
+                errors.push(format!("kill loop: {e}"));
+                return None;
+            }
+        };
+        // verify everything acknowledged so far
+        let mut p = Uuid::nil();
+        let mut walked = 0usize;
+        loop {
+            let req = Req::GetChild { parent: p };
+            let r = socket_request(&addr, &Subject::build_http(client, &req), Framing::ContentLength, Duration::from_secs(20));
+            match Subject::decode_http(&req, &r) {
+                Resp::Found { vid, parent, data } => {
+                    if walked < acked.len() {
+                        let (av, ap, ad) = &acked[walked];
+                        if vid != *av || parent != *ap || data != *ad {
+                            return Some(Found { property: "C04".into(), signature: "C04:kill9 acknowledged version changed".into(), msg: format!("after kill -9 (cycle {cyc}) and restart, acknowledged version #{walked} ({av}) is served as v={vid}, p={parent}, {} bytes", data.len()), replay: json!({"origin": "kill9", "case": cyc}) });
+                        }
+                    } else if walked == acked.len() && parent == p {
+                        // the request in flight at the kill was committed: adopt it
+                        acked.push((vid, parent, data));
+                        cov.hit("kill9:in-flight-request-was-committed".into());
+                    } else {
+                        return Some(Found { property: "C04".into(), signature: "C04:kill9 unexpected version".into(), msg: format!("after kill -9 (cycle {cyc}) an unexpected version {vid} follows the chain"), replay: json!({"origin": "kill9", "case": cyc}) });
+                    }
+                    p = vid;
+                    walked += 1;
+                }
+                Resp::NotFound => break,
+                o => {
+                    return Some(Found { property: "C04".into(), signature: "C04:kill9 walk".into(), msg: format!("after kill -9 (cycle {cyc}) and restart the chain walk at {p} answers {} ({} of {} acknowledged versions walked)", o.short(), walked, acked.len()), replay: json!({"origin": "kill9", "case": cyc}) });
+                }
+            }
+        }
+        if walked < acked.len() {
+            return Some(Found { property: "C04".into(), signature: "C04:kill9 acknowledged lost".into(), msg: format!("after kill -9 (cycle {cyc}) and restart only {walked} of {} acknowledged versions are present", acked.len()), replay: json!({"origin": "kill9", "case": cyc}) });
+        }
+        if let Some((sv, sd)) = &snap {
+            let r = socket_request(&addr, &Subject::build_http(client, &Req::GetSnapshot), Framing::ContentLength, Duration::from_secs(20));
+            match Subject::decode_http(&Req::GetSnapshot, &r) {
+                Resp::Snap { vid, data } if (vid == *sv && data == *sd) => {}
+                Resp::Snap { vid, .. } if acked.iter().position(|a| a.0 == vid) > acked.iter().position(|a| a.0 == *sv) => {} // an in-flight newer snapshot was committed
+                o => return Some(Found { property: "C04".into(), signature: "C04:kill9 snapshot".into(), msg: format!("after kill -9 (cycle {cyc}) the acknowledged snapshot for {sv} is served as {}", o.short()), replay: json!({"origin": "kill9", "case": cyc}) }),
+            }
+        }
+        cov.count("kill9_cycles", 1);
+        cov.count("kill9_acknowledged_versions_verified", walked as u64);
+        // workload in a thread; kill at a random instant
+        let stop = Arc::new(AtomicBool::new(false));
+        let done: Arc<Mutex<Vec<(Uuid, Uuid, Vec<u8>)>>> = Arc::new(Mutex::new(vec![]));
+        let snapd: Arc<Mutex<Option<(Uuid, Vec<u8>)>>> = Arc::new(Mutex::new(None));
+        let start_parent = acked.last().map(|a| a.0).unwrap_or(Uuid::nil());
+        let (a2, s2, d2, sn2) = (addr.clone(), stop.clone(), done.clone(), snapd.clone());
+        let wseed = rng.next_u64();
+        let th = std::thread::spawn(move || {
+            let mut r = Rng::new(wseed);
+            let mut parent = start_parent;
+            let mut i = 0;
+            while !s2.load(Ordering::SeqCst) && i < 400 {
+                i += 1;
+                let len = *r.pick(&[20usize, 3000, 4100, 30_000, 200_000]);
+                let data: Vec<u8> = (0..len).map(|_| r.next_u64() as u8).collect();
+                let req = Req::AddVersion { parent, data: data.clone() };
+                let resp = socket_request(&a2, &Subject::build_http(client, &req), Framing::ContentLength, Duration::from_secs(10));
+                match Subject::decode_http(&req, &resp) {
+                    Resp::AddOk { vid, .. } => {
+                        d2.lock().unwrap().push((vid, parent, data));
+                        parent = vid;
+                        if r.pct(20) {
+                            let sd: Vec<u8> = (0..500).map(|_| r.next_u64() as u8).collect();
+                            let sreq = Req::AddSnapshot { vid, data: sd.clone() };
+                            let sr = socket_request(&a2, &Subject::build_http(client, &sreq), Framing::ContentLength, Duration::from_secs(10));
+                            if sr.status == 200 {
+                                *sn2.lock().unwrap() = Some((vid, sd));
+                            }
+                        }
+                    }
+                    _ => break, // the server is gone (or a conflict after an in-flight commit)
+                }
+            }
+        });
+        std::thread::sleep(Duration::from_micros(rng.range(500, 60_000)));
+        proc.kill9();
+        stop.store(true, Ordering::SeqCst);
+        let _ = th.join();
+        acked.extend(done.lock().unwrap().drain(..));
+        let taken = snapd.lock().unwrap().take();
+        if let Some(s) = taken {
+            snap = Some(s);
+        }
+    }
+    None
 }
 
 pub fn finalize(out: ShardOut, is_replay: bool) -> CheckResult {
